@@ -1044,9 +1044,12 @@ def mon_C11(blocks):
     (a failed flush of a session that stays cached loses nothing and may be ignored); any failed load, user
     lookup, delete or listing makes the call fail; a failed load changes nothing."""
     out = []
+    limbo = False   # an earlier call reported a failure: what memory and store hold from then on was never acknowledged
     for b in blocks:
         a = b.ann
         k = b.tok[0]
+        if b.restart:
+            limbo = False
         if not b.faulted:
             continue
         if b.ret == "panic":
@@ -1060,7 +1063,9 @@ def mon_C11(blocks):
         if hard and success:
             out.append(Violation(b.idx, "%s reported success although %s failed" % (b.line, " ".join(hard[0]))))
             continue
-        if success and any(e[0] == "save" for e in failed):
+        if not success:
+            limbo = True
+        if success and not limbo and any(e[0] == "save" for e in failed):
             getdel = k == "h" and b.tok[1] == "getdel"
             if b.ss and not getdel and (k == "req" or (k == "h" and b.tok[1] in MUTATORS)):
                 sid_ = _unq(b.ss["id"])
